@@ -146,4 +146,281 @@ theorem tail_pass {chs : Char → Bool} (hs : NameSafe chs) (he : chs '=' = fals
     · rw [run, q1, q2, run_append, hi.2]
       exact ih'.2
 
+theorem comma_not_space : isPySpace ',' = false := by decide
+
+theorem item_last (kv : Str × Str) : (labelItem kv).getLast? = some '"' := by
+  rw [labelItem_eq, List.getLast?_eq_some_iff]
+  exact ⟨escapeLabelName kv.1 ++ ('=' :: '"' :: escape kv.2), by simp⟩
+
+theorem item_head {legacy : Bool} {kv : Str × Str} (h : labelNameOK legacy kv.1 = true) :
+    ∃ a t, labelItem kv = a :: t ∧ a ≠ ',' ∧ isPySpace a = false := by
+  rw [labelItem_eq]
+  rcases nameTok_cases h with ⟨e, hne, hc, _⟩ | e
+  · rw [e]
+    cases hk : kv.1 with
+    | nil => exact absurd hk hne
+    | cons c cs =>
+      have hl := hc c (by rw [hk]; simp)
+      exact ⟨c, _, rfl, legacyChar_ne hl (by decide), legacyChar_not_space hl⟩
+  · rw [e]
+    exact ⟨'"', _, rfl, by decide, by decide⟩
+
+theorem strip_item {legacy : Bool} {kv : Str × Str} (h : labelNameOK legacy kv.1 = true) : strip (labelItem kv) = labelItem kv := by
+  obtain ⟨a, t, e, _, hs⟩ := item_head h
+  exact strip_eq_self (a := a) (b := '"') (by rw [e]; rfl) hs (item_last kv) (by decide)
+
+theorem tail_last (l : List (Str × Str)) (h : l ≠ []) : (tailStr l).getLast? = some '"' := by
+  induction l with
+  | nil => exact absurd rfl h
+  | cons kv r ih =>
+    rw [tailStr_cons, ← List.cons_append, List.getLast?_append]
+    by_cases hr : r = []
+    · subst hr
+      simp only [tailStr, List.flatMap_nil, List.getLast?_nil, Option.none_or]
+      obtain ⟨ys, hys⟩ := List.getLast?_eq_some_iff.mp (item_last kv)
+      rw [List.getLast?_eq_some_iff]
+      exact ⟨',' :: ys, by rw [hys]; rfl⟩
+    · rw [ih hr]; rfl
+
+theorem strip_tail (l : List (Str × Str)) : strip (tailStr l) = tailStr l := by
+  cases l with
+  | nil => rfl
+  | cons kv r =>
+    exact strip_eq_self (a := ',') (b := '"') (by rw [tailStr_cons]; rfl) comma_not_space (tail_last _ (by simp)) (by decide)
+
+def termChs : Char → Bool := fun ch => ch == ',' || ch == '}'
+
+theorem termChs_safe : NameSafe termChs := nameSafe_or ',' '}' (by decide) (by decide) (by decide) (by decide)
+
+/-- scanning `item ++ tail` for the next unquoted ',' or '}' stops right after the item -/
+theorem scan_term_tail {tm : Str} (hp : noHit termChs tm false false = true ∧ run tm false false = (false, false))
+    (r : List (Str × Str)) :
+    nextUnquotedChar (tm ++ tailStr r) termChs 0 = if r = [] then none else some tm.length := by
+  rw [nextUnquotedChar_zero]
+  rw [scan_append_of_noHit _ _ _ _ _ hp.1, hp.2]
+  cases r with
+  | nil => simp [tailStr, scan_nil]
+  | cons kv' r' =>
+    rw [tailStr_cons, scan_hit termChs ',' _ false (by decide) (by decide)]
+    simp
+
+/-- `_next_term` on `term,item,…` or `,term,item,…` for a term the scanner passes -/
+theorem nextTerm_term {tm : Str} (hp : noHit termChs tm false false = true ∧ run tm false false = (false, false))
+    (hhead : ∃ a t, tm = a :: t ∧ a ≠ ',' ∧ isPySpace a = false) (hstrip : strip tm = tm) (r : List (Str × Str))
+    (lead : Bool) :
+    nextTerm ((if lead then [','] else []) ++ (tm ++ tailStr r)) false = .ok (tm, tailStr r) := by
+  obtain ⟨a, t, e, hne, _⟩ := hhead
+  have hc : (a == ',') = false := by simpa using hne
+  have hsplit : (match nextUnquotedChar (tm ++ tailStr r) (fun ch => ch == ',' || ch == '}') with
+      | some p => p
+      | none => (tm ++ tailStr r).length) = if r = [] then (tm ++ tailStr r).length else (tm).length := by
+    have := scan_term_tail hp r
+    unfold termChs at this
+    rw [this]
+    by_cases hr : r = [] <;> simp [hr]
+  have hfin : ∀ (t0 : Str), t0 = tm ++ tailStr r →
+      (let splitpos := match nextUnquotedChar t0 (fun ch => ch == ',' || ch == '}') with
+        | some p => p
+        | none => t0.length
+       let term := t0.take splitpos
+       if term.isEmpty && false then (.error .valueError : PyM (Str × Str))
+       else .ok (strip term, strip (t0.drop splitpos))) = .ok (tm, tailStr r) := by
+    intro t0 ht0
+    subst ht0
+    simp only [hsplit, Bool.and_false, Bool.false_eq_true, ↓reduceIte]
+    by_cases hr : r = []
+    · subst hr; simp [tailStr, hstrip, strip_nil]
+    · simp only [hr, ↓reduceIte, List.take_left, List.drop_left, hstrip, strip_tail]
+  cases lead with
+  | false =>
+    simp only [Bool.false_eq_true, ↓reduceIte, List.nil_append]
+    unfold nextTerm
+    rw [e] at hfin ⊢
+    simp only [List.cons_append, hc, Bool.false_eq_true, ↓reduceIte]
+    exact hfin _ rfl
+  | true =>
+    simp only [↓reduceIte, List.cons_append, List.nil_append]
+    unfold nextTerm
+    rw [e] at hfin ⊢
+    simp only [List.cons_append, beq_self_eq_true, ↓reduceIte]
+    split
+    · rename_i e1
+      split at e1
+      · rename_i e'; simp at e'
+      · rename_i e'; simp at e'; exact absurd e'.1 hne
+      · simp at e1
+    · rename_i e1
+      split at e1
+      · rename_i e'; simp at e'
+      · simp at e1
+      · simp at e1
+    · rename_i t1 e1
+      split at e1
+      · rename_i e'; simp at e'
+      · simp at e1
+      · simp only [Except.ok.injEq, Option.some.injEq] at e1
+        subst e1
+        exact hfin _ rfl
+
+
+/-- `_next_term` on `item,item,…` or `,item,item,…` -/
+theorem nextTerm_item {legacy : Bool} {kv : Str × Str} (h : labelNameOK legacy kv.1 = true) (r : List (Str × Str))
+    (lead : Bool) :
+    nextTerm ((if lead then [','] else []) ++ (labelItem kv ++ tailStr r)) false = .ok (labelItem kv, tailStr r) :=
+  nextTerm_term (item_pass termChs_safe (by decide) h) (item_head h) (strip_item h) r lead
+
+def eqChs : Char → Bool := (· == '=')
+theorem eqChs_safe : NameSafe eqChs := nameSafe_eq '=' (by decide) (by decide)
+
+/-- the unquoted '=' of an item is the one after the name -/
+theorem scan_item_eq {legacy : Bool} {kv : Str × Str} (h : labelNameOK legacy kv.1 = true) :
+    nextUnquotedChar (labelItem kv) (· == '=') 0 = some (escapeLabelName kv.1).length := by
+  rw [nextUnquotedChar_zero, labelItem_eq]
+  have hp := nameTok_pass eqChs_safe h
+  show scan eqChs _ false false = _
+  rw [scan_append_of_noHit _ _ _ _ _ hp.1, hp.2, scan_hit eqChs '=' _ false (by decide) (by decide)]
+  simp
+
+theorem item_nonempty (kv : Str × Str) : (labelItem kv).isEmpty = false := by
+  rw [labelItem_eq]; cases escapeLabelName kv.1 <;> rfl
+
+theorem unquote_nameTok {legacy : Bool} {k : Str} (h : labelNameOK legacy k = true) :
+    ∃ q, unquoteUnescape (escapeLabelName k) = .ok (k, q) ∧ (!q && !isValidLegacyMetricName k) = false := by
+  rcases nameTok_cases h with ⟨e, hne, hc, hm⟩ | e
+  · refine ⟨false, by rw [e]; exact unquoteUnescape_bare hne hc, ?_⟩
+    have : isValidLegacyMetricName k = true := matchExact_matchName (matchExact_label_metric hm)
+    simp [this]
+  · exact ⟨true, by rw [e]; exact unquoteUnescape_quoted k, rfl⟩
+
+theorem findClosingQuote_quoted (v : Str) :
+    findClosingQuote ('"' :: (escape v ++ ['"'])) (('"' :: (escape v ++ ['"'])).length + 1) 1 = some ((escape v).length + 1) := by
+  have hq := quotesEscaped_escape v
+  have hb : bsStep false '"' = false := rfl
+  have := findClosingQuote_spec [] (('"' :: (escape v ++ ['"'])).length + 1) ['"'] (escape v)
+    (by simpa [trailOdd, hb] using hq.1) (by rw [trailOdd_append]; simpa [trailOdd, hb] using hq.2) (by simp; omega)
+  simp only [List.length_singleton] at this
+  rw [show ['"'] ++ escape v ++ ['"'] = '"' :: (escape v ++ ['"']) by simp] at this
+  rw [this]; congr 1; omega
+
+theorem parseOneLabel_item {legacy : Bool} {kv : Str × Str} (h : labelNameOK legacy kv.1 = true) (r : List (Str × Str))
+    (lead : Bool) (acc : List (Str × Str)) (hfresh : acc.any (fun x => x.1 == kv.1) = false) :
+    parseOneLabel legacy false ((if lead then [','] else []) ++ (labelItem kv ++ tailStr r)) acc =
+      .ok (acc ++ [kv], tailStr r) := by
+  unfold parseOneLabel
+  rw [nextTerm_item h r lead]
+  obtain ⟨q, hq1, hq2⟩ := unquote_nameTok h
+  have htake : List.take (escapeLabelName kv.1).length (labelItem kv) = escapeLabelName kv.1 := by
+    rw [labelItem_eq]; exact List.take_left
+  have hdrop : List.drop ((escapeLabelName kv.1).length + 1) (labelItem kv) = '"' :: (escape kv.2 ++ ['"']) := by
+    rw [labelItem_eq, ← List.drop_drop, List.drop_left]; rfl
+  have hname : (kv.1 == "__name__".toList) = false := by simpa using labelNameOK_ne_name h
+  have hlen : ((escape kv.2).length + 1 + 1 != ('"' :: (escape kv.2 ++ ['"'])).length) = false := by simp
+  have htk : List.take ((escape kv.2).length + 1 + 1) ('"' :: (escape kv.2 ++ ['"'])) = '"' :: (escape kv.2 ++ ['"']) := by
+    apply List.take_of_length_le; simp
+  simp only [bind, Except.bind, pure, Except.pure, item_nonempty, Bool.false_eq_true, ↓reduceIte, scan_item_eq h, htake, hq1,
+    hdrop, hq2, strip_quoted, findClosingQuote_quoted, hlen, htk, unquoteUnescape_quoted, hname,
+    labelNameOK_validate h, hfresh]
+
+
+theorem loop_nil (legacy : Bool) (fuel : Nat) (acc : List (Str × Str)) :
+    parseLabelsLoop legacy false fuel [] acc = .ok acc := by
+  cases fuel <;> simp [parseLabelsLoop]
+
+theorem any_key_false {acc : List (Str × Str)} {k : Str} (h : k ∉ acc.map (·.1)) :
+    acc.any (fun x => x.1 == k) = false := by
+  apply Bool.eq_false_iff.mpr
+  intro ha
+  obtain ⟨x, hx, hk⟩ := List.any_eq_true.mp ha
+  exact h (List.mem_map.mpr ⟨x, hx, by simpa using hk⟩)
+
+theorem loop_tail {legacy : Bool} : ∀ (r acc : List (Str × Str)) (fuel : Nat), r.length ≤ fuel →
+    (∀ kv ∈ r, labelNameOK legacy kv.1 = true) → ((acc ++ r).map (·.1)).Nodup →
+    parseLabelsLoop legacy false fuel (tailStr r) acc = .ok (acc ++ r) := by
+  intro r
+  induction r with
+  | nil => intro acc fuel _ _ _; simp [tailStr, loop_nil]
+  | cons kv r ih =>
+    intro acc fuel hf hok hnd
+    cases fuel with
+    | zero => simp at hf
+    | succ f =>
+      have hfresh : acc.any (fun x => x.1 == kv.1) = false := by
+        apply any_key_false
+        rw [List.map_append, List.map_cons] at hnd
+        have := (List.nodup_append.mp hnd).2.2
+        intro hm
+        exact this _ hm _ (by simp) rfl
+      have hstep := parseOneLabel_item (hok kv (by simp)) r true acc hfresh
+      simp only [↓reduceIte, List.cons_append, List.nil_append] at hstep
+      rw [tailStr_cons, parseLabelsLoop]
+      simp only [List.isEmpty_cons, Bool.false_eq_true, ↓reduceIte, bind, Except.bind, hstep]
+      rw [ih (acc ++ [kv]) f (by simp at hf; omega) (fun x hx => hok x (by simp [hx])) (by simpa using hnd)]
+      simp
+
+theorem tailStr_length (r : List (Str × Str)) : r.length ≤ (tailStr r).length := by
+  induction r with
+  | nil => simp
+  | cons kv r ih => rw [tailStr_cons]; simp; omega
+
+/-- the rendered block of an (already ordered) non-empty item list parses back to the list -/
+theorem parseLabels_items {legacy : Bool} (kv : Str × Str) (r : List (Str × Str))
+    (hok : ∀ x ∈ kv :: r, labelNameOK legacy x.1 = true) (hnd : ((kv :: r).map (·.1)).Nodup) :
+    parseLabels legacy (labelItem kv ++ tailStr r) false = .ok (kv :: r) := by
+  have hkv := hok kv (by simp)
+  obtain ⟨a, t, e, _, hs⟩ := item_head hkv
+  have hlast : (labelItem kv ++ tailStr r).getLast? = some '"' := by
+    rw [List.getLast?_append]
+    by_cases hr : r = []
+    · subst hr; simp [tailStr, item_last]
+    · rw [tail_last r hr]; rfl
+  have hstrip : strip (labelItem kv ++ tailStr r) = labelItem kv ++ tailStr r :=
+    strip_eq_self (a := a) (b := '"') (by rw [e]; rfl) hs hlast (by decide)
+  unfold parseLabels
+  simp only [hstrip, Bool.false_and, Bool.false_eq_true, ↓reduceIte]
+  rw [parseLabelsLoop]
+  have hne : (labelItem kv ++ tailStr r).isEmpty = false := by rw [e]; rfl
+  have hstep := parseOneLabel_item hkv r false [] rfl
+  simp only [Bool.false_eq_true, ↓reduceIte, List.nil_append] at hstep
+  simp only [hne, Bool.false_eq_true, ↓reduceIte, bind, Except.bind, hstep]
+  rw [loop_tail r [kv] _ (by have := tailStr_length r; simp; omega) (fun x hx => hok x (by simp [hx])) (by simpa using hnd)]
+  rfl
+
+-- sortByKey is a permutation ---------------------------------------------------------------------------------------
+
+theorem insertByKey_perm {β : Type} (kv : Str × β) (l : List (Str × β)) : (insertByKey kv l).Perm (kv :: l) := by
+  induction l with
+  | nil => exact List.Perm.refl _
+  | cons x xs ih =>
+    unfold insertByKey
+    split
+    · exact List.Perm.refl _
+    · exact (List.Perm.cons x ih).trans (List.Perm.swap kv x xs)
+
+theorem sortByKey_perm {β : Type} (l : List (Str × β)) : (sortByKey l).Perm l := by
+  unfold sortByKey
+  suffices h : ∀ (acc : List (Str × β)), (l.foldl (fun acc kv => insertByKey kv acc) acc).Perm (l ++ acc) by
+    simpa using h []
+  induction l with
+  | nil => intro acc; exact List.Perm.refl _
+  | cons x xs ih =>
+    intro acc
+    rw [List.foldl_cons]
+    refine (ih _).trans ?_
+    refine (List.Perm.append_left xs (insertByKey_perm x acc)).trans ?_
+    exact List.perm_middle
+
+/-- **`parse_labels` inverts the label rendering of `sample_line`** — every label value (all characters, all
+adjacencies, empty), bare or quoted label names, any number of labels -/
+theorem parse_labels_render {legacy : Bool} {ls : List (Str × Str)} (h : LabelsOK legacy ls) :
+    parseLabels legacy (labelStr ls) false = .ok (sortByKey ls) := by
+  have hp := sortByKey_perm ls
+  have hok : ∀ x ∈ sortByKey ls, labelNameOK legacy x.1 = true := fun x hx => h.1 x (hp.mem_iff.mp hx)
+  have hnd : ((sortByKey ls).map (·.1)).Nodup := (hp.map _).nodup_iff.mpr h.2
+  cases hs : sortByKey ls with
+  | nil => rw [labelStr_of_sorted_nil hs]; rfl
+  | cons kv r =>
+    rw [labelStr_of_sorted hs]
+    rw [hs] at hok hnd
+    exact parseLabels_items kv r hok hnd
+
 end PromVerif.Lemmas.TextParse
